@@ -248,3 +248,9 @@ Proof.
   vm_compute. intros [H|[]]; discriminate.
 Qed.
 Print Assumptions C11_alive_set_change_refuted.
+
+(* the same catalogue under hard-write with the read side repaired: the key is looked up among all 8 shards (shard 4) and shard 4
+   is alive, so it is consulted although the partition of shard 8 is offline *)
+Example hard_write_repaired_finds_the_row :
+  map s_id (target_group_hw xxh64 repaired ex_cfg (set_alive ex_group (seq 0 7)) (Some (EEq 0%N s_host [100%N]))) = [4%N].
+Proof. vm_compute. reflexivity. Qed.
